@@ -154,7 +154,8 @@ def run(out, tier, rng, work):
     out.rule = ('exhaustive single pre-emption: for RTS/CTS (windows 1, 2, all) and BAM on both layers, the real job thread of either stack is '
                 'parked at its k-th executed line of the package for 0.7 ms (thorough: 0.2, 0.7, 5 ms) of bus time, for EVERY k of the run, '
                 'while reception on the same stack goes on; oracle: payload delivered intact exactly once, both sides idle, job threads '
-                'alive; plus the reflection theorem on the extracted shared-access skeletons; non-trivial = every hold (each is a distinct schedule)')
+                'alive; plus the reflection theorem on the extracted shared-access skeletons; non-trivial = every hold (each is a distinct schedule)'
+                " Plus shapes started from a timer callback and 're-use of the pair' (the next transfer to the same peer is started during the suspension right after the acknowledgement).")
     out.assumptions = ['pre-emption inside a bytecode / dict operation, and the receive thread being pre-empted by the job thread, are not exhibited',
                        'the rely (which tables other methods delete from) is extracted syntactically; its soundness is covered by the correspondence of table contents (C01/C02)',
                        'serialisability of the send windows (T08.2) is not proved: the outcome level is by exhaustive exploration (testing)']
